@@ -428,17 +428,17 @@ def assign(cfg, rng):
     beyond rounding (linearity, row independence, dr scaling)."""
     c = dict(cfg)
     n = c['n']
-    if c['via'] == 'func':
-        c['rows'] = int(ROWS[rng.integers(len(ROWS))])
-        c['dr'] = float(DRS[rng.integers(len(DRS))])
-    elif c['via'] == 'Transform':
-        iso = c['fam']['family'] != 'ring'
-        c['rows'] = 7 if (iso and rng.random() < 0.3) else 2 * n - 1
-        c['dr'] = float(DRS[rng.integers(len(DRS))])
-    else:
+    if c['method'] in FULL_METHODS:
         c['via'] = 'full' if rng.random() < 0.5 else 'Transform'
         c['rows'] = 2 * n - 1
         c['dr'] = 1.0
+    elif c['via'] == 'func':
+        c['rows'] = int(ROWS[rng.integers(len(ROWS))])
+        c['dr'] = float(DRS[rng.integers(len(DRS))])
+    else:
+        iso = c['fam']['family'] != 'ring'
+        c['rows'] = 7 if (iso and rng.random() < 0.3) else 2 * n - 1
+        c['dr'] = float(DRS[rng.integers(len(DRS))])
     c['pass_dr'] = bool(rng.random() < 0.5)
     return c
 
@@ -538,8 +538,7 @@ if clause == 'envelope':
     print('pixel', r['pix'], 'got', r['got'], 'true', r['want'], 'error/peak', r['err'], 'envelope', E, 'law', law)
 elif clause == 'refinement':
     fine = json.loads(%(fine)r)
-    lo, hi = %(lo)r, %(hi)r
-    e0 = sweep.region_error(cfg, lo, hi); e1 = sweep.region_error(fine, lo, hi)
+    e0 = sweep.region_error(cfg, %(lo)r, %(hi)r); e1 = sweep.region_error(fine, %(lo1)r, %(hi1)r)
     bound = %(bound_expr)s
     ok = e1[0] <= bound
     print('%%s %%s options %%s family %%s: n=%%d error %%.6g  ->  n=%%d (sampled %%gx finer) error %%.6g at pixel %%s; allowed %%.6g' %% (cfg['dir'], cfg['method'], cfg['opts'], cfg['fam'], cfg['n'], e0[0], fine['n'], cfg['dr'] / fine['dr'], e1[0], e1[1], bound))
